@@ -48,6 +48,10 @@ func main() {
 		full(os.Args[2:])
 	case "witness":
 		witness(os.Args[2:])
+	case "adv":
+		advCorr(os.Args[2:])
+	case "advwitness":
+		advWitness(os.Args[2:])
 	default:
 		fmt.Fprintln(os.Stderr, "unknown mode")
 		os.Exit(2)
